@@ -131,7 +131,7 @@ def setup_lines():
     for i in range(256):
         k = "%02x" % i
         pairs += [enc(k), enc(sha(k))]
-    lines.append("sha\t" + "\t".join(pairs))
+    lines.append("shab\t" + "\t".join(pairs))
     mac = Mac()
     ip6 = IPv6()
     if len(mac._ignore_list) != 1 or len(ip6._ignore_list) != 1 or len(password_mod.DEFAULT_PASSWORD_REGEXS) != 2 \
@@ -547,6 +547,8 @@ class Oracle(object):
         }
         if "password" not in call["no_obfuscate"] and any("password" in l for l in call["lines"]):
             return
+        short = cfg["fqdn"].split(".")[0]
+        kw_on = bool(cfg["keywords"]) and "keyword" not in call["no_obfuscate"]
         for li, (src, dst) in enumerate(zip(call["lines"], out)):
             fi, fo = fields(src), fields(dst)
             if len(fi) != len(fo):
@@ -559,6 +561,13 @@ class Oracle(object):
                     kind = "mac"
                 elif host_token(cfg, a):
                     kind = "host"
+                # a token that contains the system's short name IS (by Hostname.parse_line's closing replace) an
+                # occurrence of the system's name, and one that contains a keyword is the keyword stage's: the
+                # later MAC / IPv4 stages never see the address
+                if kind in ("ip", "mac") and stage_on["host"] and short and short in a:
+                    continue
+                if kind == "mac" and kw_on and any(k.strip() in a for k in cfg["keywords"]):
+                    continue
                 if kind and stage_on[kind]:
                     self.pending.append((idx, li, j, kind, a, b))
 
@@ -666,25 +675,19 @@ def strip_tokens(h):
     return {"cfg": h["cfg"], "calls": [dict((k, v) for k, v in c.items() if k != "tokens") for c in h["calls"]]}
 
 
-WITNESSES = {
-    "ip-substitute-collision": {
-        "cfg": {"fqdn": "myhost.example.org", "obfuscate": 1, "ipv6": 0, "hostname": 0, "mac": 0, "keywords": None, "patterns": []},
-        "calls": [{"lines": ["10.230.230.2 10.230.230.1"], "no_obfuscate": [], "no_redact": 0, "allowlist": None}]},
-    "short-hostname-substring": {
-        "cfg": {"fqdn": "e.corp.net", "obfuscate": 1, "ipv6": 0, "hostname": 1, "mac": 0, "keywords": None, "patterns": []},
-        "calls": [{"lines": ["see e.corp.net"], "no_obfuscate": [], "no_redact": 0, "allowlist": None}]},
-    "mac-substitute-collision": {
-        "cfg": {"fqdn": "myhost.example.org", "obfuscate": 1, "ipv6": 0, "hostname": 0, "mac": 1, "keywords": None, "patterns": []},
-        "calls": [{"lines": ["a9:80:fb:e0:9a:bd"], "no_obfuscate": [], "no_redact": 0, "allowlist": None},
-                  {"lines": ["52:54:00:aa:bb:cc a9:80:fb:e0:9a:bd"], "no_obfuscate": [], "no_redact": 0, "allowlist": None}]},
-    "host-name-overlap": {
-        "cfg": {"fqdn": "srv9.lab.io", "obfuscate": 1, "ipv6": 0, "hostname": 1, "mac": 0, "keywords": None, "patterns": []},
-        "calls": [{"lines": ["db.lab.io www.db.lab.io"], "no_obfuscate": [], "no_redact": 0, "allowlist": None},
-                  {"lines": ["www.db.lab.io"], "no_obfuscate": [], "no_redact": 0, "allowlist": None}]},
-    "host-substitute-collision": {
-        "cfg": {"fqdn": "web01.example.com", "obfuscate": 1, "ipv6": 0, "hostname": 1, "mac": 0, "keywords": None, "patterns": []},
-        "calls": [{"lines": ["mail.example.com host2.example.com"], "no_obfuscate": [], "no_redact": 0, "allowlist": None}]},
-}
+def load_witnesses():
+    """corpus/C09/<finding id>.json: the witness history of every listed known finding"""
+    out = {}
+    cdir = os.path.join(VERIF, "corpus", "C09")
+    for f in sorted(os.listdir(cdir)):
+        if f.endswith(".json"):
+            d = json.load(open(os.path.join(cdir, f), encoding="utf-8"))
+            if d.get("finding"):
+                out[d["finding"]] = d["case"]
+    return out
+
+
+WITNESSES = load_witnesses()
 
 
 def recogniser_stream(chk, rng, n):
@@ -723,8 +726,8 @@ def recogniser_stream(chk, rng, n):
 def run(chk):
     rng = chk.rng
     quick = chk.tier == "quick"
-    n_hist = 260 if quick else 6000
-    n_rec = 500 if quick else 12000
+    n_hist = 450 if quick else 5000
+    n_rec = 600 if quick else 10000
     chk.rule = ("histories of 1-12 (thorough: 1-30) clean_content calls of 0-6 lines on one Cleaner; lines are delimiter-joined tokens: "
                 "IPv4 / host names of the system's domain / MAC / IPv6 originals re-drawn from a per-history pool with probability 0.5 "
                 "(same line, later lines, later calls), 30% of the IPv4 originals inside the substitute range 10.230.230.1+, MACs that "
@@ -765,7 +768,9 @@ def run(chk):
         if os.path.isdir(cdir):
             for f in sorted(os.listdir(cdir)):
                 if f.endswith(".json"):
-                    corpus.append(json.load(open(os.path.join(cdir, f), encoding="utf-8"))["case"])
+                    d = json.load(open(os.path.join(cdir, f), encoding="utf-8"))
+                    if not d.get("finding"):
+                        corpus.append(d["case"])
 
         # ---- histories
         hs = list(WITNESSES.values()) + corpus + [gen_history(rng, chk.tier) for _ in range(n_hist)]
